@@ -486,10 +486,11 @@ class C06(PropertyCheck):
         "label_connects", "label_connects_iff", "C06_counterexample_label",
         "phase_accumulated", "end_to_end_partial",
         "propagator_is_exponential", "rot_calibrated_exp", "iswap_calibrated_exp", "sqrtiswap_calibrated_exp",
-        "end_to_end_exp_partial", "end_to_end_pulses_partial")] + [
+        "end_to_end_exp_partial", "end_to_end_pulses_partial", "end_to_end_pulses_scheduled_partial")] + [
         # the composition lemmas behind end_to_end_pulses_partial (Lemmas/Compose*.lean)
         "QipVerif.Compose.sliceProd_eq_windows", "QipVerif.Compose.channels_sliceProd",
-        "QipVerif.SpinChain.pulses_product", "QipVerif.SpinChain.compile_chanQubits"]
+        "QipVerif.SpinChain.pulses_product", "QipVerif.SpinChain.compile_chanQubits",
+        "QipVerif.SpinChain.modelStarts_facts", "QipVerif.SpinChain.chain_chanJ", "QipVerif.SpinChain.pulses_product_sched"]
     technique = ("Lean 4: the compiler's formulas and tables regenerated from the source with ast into functions over an abstract "
                  "arithmetic, instantiated with R for the theorems and with Q for the compiled model driver; calibration "
                  "identities over C for every angle and strength, with the ideal propagator of a constant segment defined as "
@@ -523,7 +524,14 @@ class C06(PropertyCheck):
                   "exp(-i*dt_k*sum_m rows[m][k]*H_m) (Grid.runAnalytically, Mathlib's exponential) = circuit unitary "
                   "(Lemmas/ComposeSlices: slice product over a grid aligned with the pulse windows = ordered product of "
                   "exp(-i*dur*coeff*H_label), any order compatible with the time order; ComposeChannels: the Hamiltonian of a slice "
-                  "is the sum of the generators of the windows containing it, window end points are merged grid points). Partial: "
+                  "is the sum of the generators of the windows containing it, window end points are merged grid points). "
+                  "end_to_end_pulses_scheduled_partial: the same for the schedule the pipeline model itself produces (modelStarts: "
+                  "cumulative sums without scheduling, C05/C11's Sched.pulseStarts with the regenerated commuting set and "
+                  "conflict-edge variant for ASAP/ALAP - the function drv_spinchain runs): no overlap on shared gate qubits, "
+                  "respected dependencies, starts >= 0 and sorted non-overlapping channels are proved from C11.timetable_valid_tree "
+                  "(integer durations over the common denominator transported to the rationals), the grouping loop provably "
+                  "succeeds; remaining named hypotheses: some instruction carries a pulse, GapsResolved (every idle gap on a channel "
+                  "is 0 or above time_tol: C12.tolerance_counterexample shows it cannot be dropped), SepAll tol (C14). Partial: "
                   "that composition is about exact rational arithmetic (durations, coefficients and start times as rationals, no "
                   "float rounding) and takes the facts about the schedule as hypotheses: every idle gap on a channel is 0 or above "
                   "time_tol (C12 ValidG), instructions whose gates share a qubit are disjoint in time (GateDisjoint; compile_chanQubits "
@@ -552,7 +560,9 @@ class C06(PropertyCheck):
         "runAnalytically) as the meaning of 'what compile and run_analytically compute' in end_to_end_pulses_partial (tied to the "
         "code by the correspondences of C12/C14, re-run by their checks; Gen/ConcatSrc.lean is regenerated by this check too)",
         "end_to_end_pulses_partial: exact rational arithmetic; hypotheses ValidG (C12), GateDisjoint/DepRespected (C11), "
-        "SepAll (C14) about the schedule are not derived from the scheduler model",
+        "SepAll (C14) about an arbitrary schedule; end_to_end_pulses_scheduled_partial derives them for the schedule of the "
+        "pipeline model (Model/SpinChainSched.lean modelStarts, tied to the code by the start-time comparison of the "
+        "correspondence) except GapsResolved (resolution class), SepAll and 'some instruction carries a pulse'",
         "py/props/c06.py harness; numpy/scipy expm inside run_analytically (runtime numerics, 1e-9 band)",
     ]
     assumptions = ["hardware strengths are non-zero (the property says positive)",
@@ -582,6 +592,10 @@ class C06(PropertyCheck):
         # description of _concatenate_pulses / compile current for the tree under check (TranslatorError -> red)
         from props import c12 as _c12
         out += [os.path.basename(p) for p in (_c12.CHECK.regenerate(ctx) or [])]
+        # the scheduler stage of the pipeline model (Model/SpinChainSched.lean, run by drv_spinchain and the subject of
+        # end_to_end_pulses_scheduled_partial) takes the commuting-family set and the conflict-edge variant from
+        # Gen/SchedRule.lean: regenerate it from the tree under check as C05/C11 do
+        SC.regenerate()
         return out
 
     # ---------------------------------------------------------------------------------
